@@ -45,6 +45,12 @@ func c08(c *Ctx) {
 	c03R7(c, "R7/C03.R7")
 	coreCommitBundle(c, "R8")
 	c02R2(c, "R9/C02.R2")
+	// round 7: who is told "applied" in processLogs (C02.R3), every in-flight
+	// future aborted by a user Restore (C17.R6), and the commit index a restart
+	// replays into the FSM is the real commit index (C10.R5)
+	c02R3(c, "R10/C02.R3")
+	c17R6(c, "R10/C17.R6")
+	c10R5(c, "R10/C10.R5")
 }
 
 // recvArms lists (select, case index) pairs in fn that receive from a channel
